@@ -91,8 +91,8 @@ func (f *FuncFacts) callEvent(kind string, cc *ssa.CallCommon) *Event {
 	if cc.IsInvoke() {
 		args = append(args, f.c.term(cc.Value))
 	}
-	for _, a := range cc.Args {
-		args = append(args, f.c.term(a))
+	for i := range cc.Args {
+		args = append(args, f.c.argTerm(cc, i, 0))
 	}
 	if bi, ok := cc.Value.(*ssa.Builtin); ok {
 		switch bi.Name() {
@@ -258,7 +258,7 @@ func (p *Program) fieldOf(spec string) *types.Var {
 		return nil
 	}
 	for k := 0; k < st.NumFields(); k++ {
-		if st.Field(k).Name() == fname {
+		if fieldDisplayName(st.Field(k)) == fname {
 			return st.Field(k)
 		}
 	}
